@@ -202,6 +202,15 @@ func (sm *stateMachine) notifyInSessionTime() {
 }
 
 func (sm *stateMachine) handleDisconnectState(s *session) {
+	// messageIn is buffered: what arrived before the disconnect is handled first, by the state the
+	// session is still in, before the application is told and the connection is given up.
+	wasConnected := sm.IsConnected()
+	s.drainMessageIn()
+	if wasConnected && !sm.IsConnected() {
+		// One of those messages has already disconnected the session.
+		return
+	}
+
 	doOnLogout := s.IsLoggedOn()
 
 	switch s.State.(type) {
